@@ -26,7 +26,8 @@ RULE = (
     "every header (D, size, spacing, origin, direction) of the listed product - all 8 / 48 signed permutation "
     "matrices and the generic rotations of the seed's table - through every construction route, compared with "
     "SimpleITK's own index<->physical maps on the complete continuous-index lattice; header -> Grid -> header "
-    "chains of 3 rounds; layout (point tensors of index<->world and the header's direction matrix as transposed / "
+    "chains of 3 rounds; every argument form (separate scalars / flat tuple / nested list / float32 tensor / float64 array) of the copying and "
+    "in-place spacing, direction and origin setters; layout (point tensors of index<->world and the header's direction matrix as transposed / "
     "step-sliced / stride-0 expanded views, one size per header class); argument-aliasing histories (second grid from the same argument objects); and all "
     "histories construct(origin= | center= | from_sitk | odd-size grid .downsample() | .resample(1.3 x spacing), the last two with a "
     "fractional internally stored size) -> (query, setter){1,2} on ONE live Grid over the setter "
@@ -373,6 +374,35 @@ def sub_construct_origin(sink: Sink, cx: Ctx):
             sink.violation(f"C02/{sub}/{name}/raises={type(g).__name__}{cx.suffix}", cx.case(sub), exc_text(g), size=1)
             continue
         check_grid_maps(sink, cx, sub, g, name, full=False)
+    # every argument form of the attribute setters (copying and in-place): separate scalars, flat tuple, nested list,
+    # float32 tensor, float64 numpy array; Grid(size).spacing(F).direction(F).origin(F) must be the header's grid
+    D = cx.D
+    sp, o, R = [float(v) for v in cfg["spacing"]], [float(v) for v in cfg["origin"]], np.asarray(cfg["direction"], dtype=np.float64)
+    flatR = [float(v) for v in R.reshape(-1)]
+    forms = {
+        "scalars": (lambda v: tuple(v), lambda m: tuple(flatR)),
+        "flat-tuple": (lambda v: (tuple(v),), lambda m: (tuple(flatR),)),
+        "list": (lambda v: (list(v),), lambda m: (R.tolist(),)),
+        "tensor32": (lambda v: (torch.tensor(v, dtype=torch.float32),), lambda m: (torch.tensor(R, dtype=torch.float32),)),
+        "numpy64": (lambda v: (np.asarray(v, dtype=np.float64),), lambda m: (R.copy(),)),
+    }
+    for fname, (fv, fm) in forms.items():
+        for inplace in (False, True):
+            u = "_" if inplace else ""
+            name = f"setters{u}[{fname}]"
+
+            def mk():
+                g = Grid(size=tuple(cfg["size"]))
+                g = getattr(g, "spacing" + u)(*fv(sp))
+                g = getattr(g, "direction" + u)(*fm(R))
+                return getattr(g, "origin" + u)(*fv(o))
+
+            sink.trans(4)
+            st, g = guarded(mk)
+            if st == "raises":
+                sink.violation(f"C02/{sub}/{name}/raises={type(g).__name__}{cx.suffix}", cx.case(sub), exc_text(g), size=3)
+                continue
+            check_grid_maps(sink, cx, sub, g, name, full=False)
     sink.trace(sub)
 
 
